@@ -355,3 +355,4 @@ def replay(case):
             f'max_memfile_size={case["M"]}, {case["framing"]}: {v[1]}')
 
 MANIFEST['text'] += ' Field and file names with leading / trailing blanks, a quoted boundary beginning with a blank and chunks of exactly max_memfile_size bytes are included.'
+MANIFEST['text'] += ' Short-reading connections are a third framing; the handler streams its answer and reads the uploads again while the server iterates.'
